@@ -16,7 +16,7 @@ using namespace vp;
 
 namespace {
 
-enum { T0, T1, AC, U0, U1, NOBJ };
+enum { T0, T1, AC, U0, U1, NOBJ, HT = NOBJ, HU, NALL };   // HT / HU: helper sockets pre-bound to port 2001 (never operated on)
 enum { A4, A4B, A6, F4, ANY4, ANY6, NADDR };
 
 address addr_of(int a)
@@ -31,22 +31,22 @@ address addr_of(int a)
 		default: return address(address_v6::any());
 	}
 }
-int const bind_alphabet[8][2] = {{A4, 0}, {A4, 80}, {A4, 1500}, {A4B, 1500}, {ANY4, 1500}, {A6, 1500}, {F4, 1500}, {ANY6, 0}};
+int const bind_alphabet[9][2] = {{A4, 0}, {A4, 80}, {A4, 1500}, {A4B, 1500}, {ANY4, 1500}, {A6, 1500}, {F4, 1500}, {ANY6, 0}, {A4, 2000}};
 
 struct mobj { bool open = false; bool v4 = true; bool bound = false; int addr = 0; int port = 0; bool listening = false; };
-mobj g_m[NOBJ];
+mobj g_m[NALL];
 
 asio::io_context* g_ios;
 tcp::socket* g_t[2];
 tcp::acceptor* g_ac;
 udp::socket* g_u[2];
 
-bool is_udp(int o) { return o >= U0; }
+bool is_udp(int o) { return o == U0 || o == U1 || o == HU; }
 
 // who holds (proto, addr, port)?  -1: nobody
 int owner(bool udp_, int addr, int port)
 {
-	for (int o = 0; o < NOBJ; ++o)
+	for (int o = 0; o < NALL; ++o)
 		if (is_udp(o) == udp_ && g_m[o].bound && g_m[o].addr == addr && g_m[o].port == port) return o;
 	return -1;
 }
@@ -124,7 +124,7 @@ void step()
 	{
 		// bind
 		if (m.bound) return;                       // bind on a bound socket: unsupported use
-		int const bi = vp_choose(8);
+		int const bi = vp_choose(9);
 		int const a = bind_alphabet[bi][0];
 		int const port = bind_alphabet[bi][1];
 		error_code ec;
@@ -214,6 +214,16 @@ extern "C" int harness_main()
 	g_ac = new tcp::acceptor(ios);
 	g_u[0] = new udp::socket(ios); g_u[1] = new udp::socket(ios);
 
+	// helpers: port 2001 is taken in both protocols, so that an ephemeral search starting at 2000 with 2000 taken
+	// as well has to skip two ports
+	tcp::socket ht(ios); udp::socket hu(ios);
+	{
+		error_code e;
+		ht.open(tcp::v4(), e); ht.bind(tcp::endpoint(addr_of(A4), 2001), e); vp_assert(!e, 5);
+		hu.open(udp::v4(), e); hu.bind(udp::endpoint(addr_of(A4), 2001), e); vp_assert(!e, 6);
+		g_m[HT].open = true; g_m[HT].bound = true; g_m[HT].addr = A4; g_m[HT].port = 2001;
+		g_m[HU].open = true; g_m[HU].bound = true; g_m[HU].addr = A4; g_m[HU].port = 2001;
+	}
 	for (int i = 0; i < K; ++i) step();
 
 	// ---- probes: every (address, port) of the alphabet, UDP then TCP
@@ -264,7 +274,8 @@ extern "C" int harness_main()
 	if (expect_conn != -2) vp_assert(g_conn_result == expect_conn, 63);
 	if (expect_conn == 0)
 	{
-		// closing the accepted socket never unbinds its acceptor
+		// moving and then closing the accepted socket never unbinds (or steals the binding of) its acceptor
+		{ tcp::socket moved_acc(std::move(accepted)); vp_assert(owner(false, g_m[AC].addr, g_m[AC].port) == AC, 67); moved_acc.close(ec); }
 		accepted.close(ec);
 		vp_assert(owner(false, g_m[AC].addr, g_m[AC].port) == AC, 64);
 		address la; int lp;
@@ -278,7 +289,7 @@ extern "C" int harness_main()
 		vp_assert(g_conn_result == 0, 66);
 		vp_reach(3);
 	}
-	pt.close(ec); pu.close(ec);
+	pt.close(ec); pu.close(ec); ht.close(ec); hu.close(ec);
 	delete g_t[0]; delete g_t[1]; delete g_ac; delete g_u[0]; delete g_u[1];
 	s.run();
 	vp_reach(1);
